@@ -45,7 +45,7 @@ TRUSTED = [
 RULE = ("one case = one zone configuration (relativize, origin) and one history of transactions; distinct = "
         "distinct canonical history; non-trivial = the history ran without a harness-level error")
 ASSUMPTIONS = [
-    "names handed to the zone all have the zone's relativity after dns.zone._validate_name (proved: validate_abs)",
+    "operation names are dns.name.Name objects (only the last label may be empty) and the origin is absolute; then dns.zone._validate_name yields names under the apex (proved: validate_name_valid / names_of_callers_ok)",
     "bounds() is specified when the apex node exists (the code asserts it)",
 ]
 
@@ -380,6 +380,17 @@ def oracle(ctx, kind, case, out):
         for r in opres:
             if isinstance(r, Err) and r.code != E_KEY:
                 fail("operation raised " + r.text, sig="exc", where=i)
+        ctx.count("txn:" + ("replacement" if t[0] else "update") + ("" if t[1] else "-rollback"))
+        ctx.count("op:keyerror", sum(1 for r in opres if isinstance(r, Err)))
+        ctx.count("op:ok", sum(1 for r in opres if not isinstance(r, Err)))
+        for n_ in d[0]:
+            ctx.count("node-flags:%d" % n_[1])
+        ctx.count("delegation-entries", len(d[1]))
+        for r in qs:
+            if isinstance(r, Err):
+                ctx.count("query:keyerror")
+            else:
+                ctx.count("query:" + ("at-or-below-cut" if r[4] else "equal" if r[3] else "between"))
         check_state(fail, rel, origin, d, qs, t[3], i)
         if F:
             break
